@@ -102,7 +102,13 @@ func c13Reference() (map[[2]int]string, error) {
 
 // bytecodeKey hashes the bytecode of a compiled program by reflection, with the
 // random loop ids replaced by their order of first appearance.
-func bytecodeKey(v *libvore.Vore) (key string, ok bool) {
+func bytecodeKey(v *libvore.Vore) (key string, ok bool) { return bytecodeKeyOpt(v, false) }
+
+// bytecodeKeyCap also covers the elements between a slice's length and its capacity: an `append`
+// into the spare capacity of a slice the program shares writes there without changing any length.
+func bytecodeKeyCap(v *libvore.Vore) (key string, ok bool) { return bytecodeKeyOpt(v, true) }
+
+func bytecodeKeyOpt(v *libvore.Vore, withCap bool) (key string, ok bool) {
 	defer func() {
 		if recover() != nil {
 			key, ok = "", false
@@ -146,6 +152,13 @@ func bytecodeKey(v *libvore.Vore) (key string, ok bool) {
 			b.WriteString("[")
 			for i := 0; i < x.Len(); i++ {
 				walk(x.Index(i), depth+1)
+			}
+			if withCap && x.Kind() == reflect.Slice && x.Cap() > x.Len() {
+				b.WriteString("|spare:")
+				full := x.Slice(0, x.Cap())
+				for i := x.Len(); i < x.Cap(); i++ {
+					walk(full.Index(i), depth+1)
+				}
 			}
 			b.WriteString("]")
 		case reflect.Map:
